@@ -43,6 +43,22 @@ def impl_read(raw, reader, window, cache):
         return ("error", type(e).__name__, None)
 
 
+_END = {}
+
+
+def cache_end(cache):
+    """end offset the header cache holds after reading `cache` (None = empty cache)"""
+    if cache is None:
+        return None
+    if cache not in _END:
+        from pose_format import Pose
+        from pose_format.pose_header import PoseHeaderCache
+        PoseHeaderCache.clear_cache()
+        Pose.read(cache)
+        _END[cache] = PoseHeaderCache.end_offset
+    return _END[cache]
+
+
 def slice_pose(full, s, e):
     b = full["body"]
     F = b["frames"]
@@ -196,8 +212,9 @@ def check_oracle(ctx, case, raw, full, w, reader, cname, cache, res, hl, row):
         ctx.violation("a window read differs from the slice of the full read", info, {"first_difference": d}, True, size=len(raw), signature={"reader": reader})
     if reader == "stream" and w_any(w):
         n = min(e0, F) - s0
-        hint = 10240 + 100 if cache is None else None
-        bound = max(10340, hl + 100 + 10240) + hl + 10 + n * row
+        # the bound of theorem C03.consumption_bound: prefetch hint (10 KiB, or the cached header's end offset, + 100) + bytes decoded
+        hint = (cache_end(cache) or 10240) + 100
+        bound = hint + hl + 10 + n * row
         if res[2] > bound:
             ctx.violation("a windowed stream read consumed more than header + window + bounded prefetch", info, {"pulled": res[2], "bound": bound, "file": len(raw)}, True, size=len(raw),
                           signature={"clause": "consumption"})
